@@ -299,6 +299,11 @@ func execute(ctx context.Context, st storage.Store, stm *semantic.Statement, sp 
 		}
 		rows = append(rows, canon(cells))
 	}
+	// the rows in the order of the table (compared only for statements whose ORDER BY is a total order)
+	seq := make([]json.RawMessage, len(rows))
+	for i, r := range rows {
+		seq[i] = json.RawMessage(r)
+	}
 	sort.Strings(rows)
 	jr := make([]json.RawMessage, len(rows))
 	for i, r := range rows {
@@ -307,7 +312,7 @@ func execute(ctx context.Context, st storage.Store, stm *semantic.Statement, sp 
 	if outs == nil {
 		outs = []string{}
 	}
-	return J{"kind": "ok", "outs": outs, "rows": jr}
+	return J{"kind": "ok", "outs": outs, "rows": jr, "seq": seq}
 }
 
 // runSpec parses and executes one spec in this process.
